@@ -171,6 +171,10 @@ func main() {
 						if id.Name == "close" && len(n.Args) == 1 {
 							c.Replace(call(sel("vchan", "Close"), n.Args[0]))
 						}
+						if (id.Name == "len" || id.Name == "cap") && len(n.Args) == 1 && isChanExpr(n.Args[0]) {
+							m := map[string]string{"len": "Len", "cap": "Cap"}[id.Name]
+							c.Replace(call(&ast.SelectorExpr{X: n.Args[0], Sel: ast.NewIdent(m)}))
+						}
 						if id.Name == "make" && len(n.Args) >= 1 {
 							// make(chan T, n): the ChanType child has already been rewritten to *vchan.Chan[T]
 							if st, ok := n.Args[0].(*ast.StarExpr); ok {
